@@ -7,11 +7,33 @@ from molli.chem import Atom, Bond, BondType, BondStereo, AtomStereo, AtomType, C
 SPLIT = int(os.environ.get("XH_SPLIT", "-1"))
 NSPLIT = int(os.environ.get("XH_NSPLIT", "16"))
 N = int(os.environ.get("XH_N", "4"))
+FULL = os.environ.get("XH_FULL") == "1"
+QUICK = os.environ.get("XH_QUICK") == "1"
 PAIRS = [(i, j) for i in range(N) for j in range(i + 1, N)]
 NP = len(PAIRS)
 SB = [bool((max(SPLIT, 0) >> k) & 1) for k in range(4)]
 BT = [BondType.Single, BondType.Double, BondType.Triple, BondType.Aromatic, BondType.Amide, BondType.Unknown, BondType.Dummy, BondType.FractionalOrder, BondType.H_Acceptor]
 CLS = [Connectivity, Molecule, ConformerEnsemble]
+
+
+class _Null:
+    def __enter__(self):
+        return self
+
+    def __exit__(self, *a):
+        return False
+
+
+def untraced():
+    """context in which concrete code runs natively (CrossHair's tracer off); a no-op outside CrossHair.  Only used around calls whose
+    arguments are fully concrete (menu entries already chosen by the solver): networkx's matcher costs ~2.5 s per path under the tracer"""
+    try:
+        from crosshair.tracers import NoTracing, is_tracing
+        if is_tracing():
+            return NoTracing()
+    except Exception:
+        pass
+    return _Null()
 
 
 def pick(sel, n):
@@ -61,6 +83,7 @@ def h_bfs(e0: bool, e1: bool, e2: bool, e3: bool, e4: bool, e5: bool, e6: bool, 
     breadth-first traversal without a direction: every other atom of the component exactly once, non-decreasing, true shortest-path distance;
     yield_bfs gives the same atoms in the same order
     pre: 0 <= start < N and 0 <= cls_sel < len(CLS) and 0 <= by <= 1
+    pre: FULL or N <= 4 or (cls_sel == 0 and by == 0)
     pre: SPLIT < 0 or (e0 == SB[0] and e1 == SB[1] and e2 == SB[2] and e3 == SB[3])
     pre: NP >= 10 or not (e6 or e7 or e8 or e9)
     post: _
@@ -133,7 +156,7 @@ def h_ring(e0: bool, e1: bool, e2: bool, e3: bool, e4: bool, e5: bool, e6: bool,
 def h_adj(e0: bool, e1: bool, e2: bool, e3: bool, e4: bool, e5: bool, e6: bool, e7: bool, e8: bool, e9: bool, atom: int, t0: int, cls_sel: int) -> bool:
     """
     connected_atoms / bonds_with_atom / n_bonds_with_atom / bonded_valence / lookup_bond of every atom agree with the bond list; bond types symbolic
-    pre: 0 <= atom < N and 0 <= t0 < len(BT) and 0 <= cls_sel < len(CLS)
+    pre: 0 <= atom < N and 0 <= t0 < len(BT) and 0 <= cls_sel < len(CLS) and (FULL or (cls_sel <= 1 and t0 <= 2))
     pre: SPLIT < 0 or (e0 == SB[0] and e1 == SB[1] and e2 == SB[2] and e3 == SB[3])
     pre: NP >= 10 or not (e6 or e7 or e8 or e9)
     post: _
@@ -195,6 +218,8 @@ def h_match(e0: bool, e1: bool, e2: bool, e3: bool, e4: bool, e5: bool, e6: bool
     pre: SPLIT < 0 or (e0 == SB[0] and e1 == SB[1] and e2 == SB[2] and e3 == SB[3])
     pre: NP >= 10 or not (e6 or e7 or e8 or e9)
     pre: bt == 0 or (p0 == 1 and p1 == 1 and h0 == 1 and h1 == 2)
+    pre: FULL or (cls_sel == 0 and p1 == 1 and h1 == 2)
+    pre: not QUICK or psel <= 5
     post: _
     """
     bits = [e0, e1, e2, e3, e4, e5, e6, e7, e8, e9][:NP]
@@ -210,7 +235,9 @@ def h_match(e0: bool, e1: bool, e2: bool, e3: bool, e4: bool, e5: bool, e6: bool
     for i, j in pedges:
         pat.connect(i, j, btype=t)
     want = brute(pn, pedges, pel, N, hadj, hel)
-    got = [list(x) for x in host.get_substr_indices(pat)]
+    with untraced():
+        got = [list(x) for x in host.get_substr_indices(pat)]
+        maps = list(host.match(pat))
     if len(got) != len(want):
         return False
     for g in got:
@@ -220,7 +247,6 @@ def h_match(e0: bool, e1: bool, e2: bool, e3: bool, e4: bool, e5: bool, e6: bool
         if g_count(got, w) != 1:
             return False
     # match(): the same maps as dictionaries pattern atom -> host atom
-    maps = list(host.match(pat))
     if len(maps) != len(want):
         return False
     for m in maps:
@@ -286,7 +312,7 @@ def run(rep, tier):
     q = tier == "quick"
     n = 4 if q else 5
     ns = 16
-    env = {"XH_N": str(n), "XH_NSPLIT": str(ns)}
+    env = {"XH_N": str(n), "XH_NSPLIT": str(ns), "XH_QUICK": "1" if q else "0"}
     rep.bounds = {"graphs": f"every labelled graph on {n} atoms (edge bits symbolic), every start atom, every direction, every bond in both orientations; Connectivity, Molecule and ConformerEnsemble",
                   "matching": f"host = every labelled graph on {n} atoms, 8 connected patterns on 1-4 atoms, elements of two pattern atoms over {{Unknown,C,N}}/{{C,N}} and of two host atoms over {{C,N}}, "
                               "one of 6 bond types shared by all bonds; _node_match / _edge_match additionally as pure functions over symbolic ints (elements 0-118, isotopes, stereo, bond types)",
@@ -294,9 +320,27 @@ def run(rep, tier):
     rep.outside = ["graphs on more than 5 atoms (the exhaustive-to-6 and random-to-40 parts of the quantifier are not reproduced)", "[selector-bound]: the solver enumerates a finite space of graphs",
                    "bond types that _edge_match rejects by design with NotImplementedError (Dummy, FractionalOrder, ...) in patterns", "different bond types on pattern and host (the property states no rule for them)"]
     rep.assumptions = ["pattern element Unknown is the wildcard ('Unknown matches any'); a host atom of Unknown element is only matched by a wildcard"]
-    T = 900 if q else 3000
+    T = 900 if q else 6000
     specs = []
     for fn in ("h_bfs", "h_bfs_dir", "h_ring", "h_adj", "h_match"):
-        specs += [{"fn": fn, "timeout": T, "split": s, "env": env} for s in range(ns)]
+        specs += [{"fn": fn, "timeout": T, "split": s, "env": dict(env, XH_FULL="0" if (q or fn == "h_match") else "1")} for s in range(ns)]
+    if q:              # LIFO/FIFO slips need 5 atoms to show: plain traversal on every 5-atom graph already in the quick tier
+        specs += [{"fn": "h_bfs", "timeout": T, "split": s, "env": {"XH_N": "5", "XH_NSPLIT": str(ns)}} for s in range(ns)]
+    if not q:          # thorough: the full element / class product on 4 atoms in addition to the reduced one on 5 atoms
+        env4 = {"XH_N": "4", "XH_NSPLIT": str(ns), "XH_FULL": "1"}
+        specs += [{"fn": fn, "timeout": T, "split": s, "env": env4} for fn in ("h_match", "h_adj") for s in range(ns)]
     specs += [{"fn": "h_node_match", "timeout": 600}, {"fn": "h_edge_match", "timeout": 600}]
     xh.run_obligations(rep, "harness.C15", specs)
+
+
+def _warm():
+    """networkx compiles its decorated functions lazily with exec(); do that once outside CrossHair's tracer (dicts created under the tracer
+    are proxies that exec() refuses)"""
+    c, _, _ = build(Connectivity, [True] * NP)
+    p = Connectivity([Atom("C"), Atom("C")])
+    p.connect(0, 1)
+    list(c.get_substr_indices(p))
+    list(c.match(p))
+
+
+_warm()
